@@ -14,6 +14,9 @@ import itertools
 from ..probes.streams import ScriptedStream, SpinDetected
 from ..ref import cfb8, framing
 from .c18 import RecSocket
+from ..probes import client as pc
+from ..server import mcserver, scripts
+from ..server.codec import codec_for
 
 SHARDS = {'quick': 8, 'thorough': 16}
 
@@ -73,7 +76,7 @@ def run(run):
         if not short:
             sizes += [126, 127, 128, 129, 300, 2000, 8192]
             if thorough:
-                sizes += [16382, 16383, 16384, 16390]
+                sizes += [16382, 16383, 16384, 16390, 70000, 2 ** 18]
         for _ in range(n):
             kind = rng.choice(('plugin', 'plugin', 'chat', 'ka', 'unknown'))
             if kind == 'plugin':
@@ -81,8 +84,22 @@ def run(run):
                 size = rng.choice(sizes)
                 channel = rng.choice(('a', 'minecraft:brand', ''))
                 overhead = 1 + 1 + len(channel)
-                data = bytes(rng.getrandbits(8) if rng.random() < 0.5 else 0x41
-                             for _ in range(max(0, size - overhead)))
+                dlen = max(0, size - overhead)
+                fill = rng.choice(('mixed', 'mixed', 'zeros', 'same', 'random',
+                                   'period'))
+                run.seen('payload_fills', fill)
+                if fill == 'mixed':
+                    data = bytes(rng.getrandbits(8) if rng.random() < 0.5
+                                 else 0x41 for _ in range(dlen))
+                elif fill == 'zeros':       # extreme compression ratios
+                    data = bytes(dlen)
+                elif fill == 'same':
+                    data = bytes([rng.getrandbits(8)]) * dlen
+                elif fill == 'random':      # incompressible: inflates slightly
+                    data = rng.randbytes(dlen)
+                else:
+                    unit = rng.randbytes(rng.randrange(1, 9))
+                    data = (unit * (dlen // len(unit) + 1))[:dlen]
                 seq.append(('plugin', plug_id, (channel, data)))
             elif kind == 'chat':
                 text = '{"text":"%s"}' % ('x' * rng.choice((0, 5, 50)))
@@ -300,7 +317,158 @@ def run(run):
                     break
         if si < 3:
             run.sample(dict(w, wire_prefix=wire[:24]))
+    live_sessions(run, thorough)
     run.require('reader_runs', 500)
     run.require('ref_reader_runs', 5)
     run.require('frames_compressed', 5)
     run.require('frames_uncompressed', 5)
+
+
+LIVE_MODES = ('none', 'disconnect-late', 'disconnect-immediate-late',
+              'forced-late', 'forced-early', 'queued-late', 'queued-early')
+
+
+def live_sessions(run, thorough):
+    """The same claim on a live connection: numbered chat packets queued on a
+    real Connection (any threshold, cipher on/off) reach the independent
+    server exactly once each and in order - also when an outgoing listener,
+    running in the middle of the write loop, writes further packets or asks
+    for a (flushing) disconnect."""
+    from minecraft.networking.packets import clientbound, serverbound
+    rng = run.rng('c01-live')
+    n_cases = 160 if thorough else 28
+    for ci in range(n_cases):
+        mode = LIVE_MODES[ci % len(LIVE_MODES)]
+        pv = rng.choice((47, 340, 578, 757))
+        threshold = rng.choice((None, 0, 1, 64, 256))
+        encrypted = rng.random() < 0.4
+        n = rng.randrange(3, 12)
+        k = rng.randrange(0, n)
+        from_listener = rng.random() < 0.6 or mode != 'none'
+        if not run.mine(100000 + ci):
+            continue
+        msgs = ['m%d-%s' % (i, 'x' * rng.choice((0, 3, 70, 200)))[:90]
+                for i in range(n)]
+        extra = 'extra-%d' % ci
+        w = {'live': True, 'mode': mode, 'pv': pv, 'threshold': threshold,
+             'encrypted': encrypted, 'n': n, 'k': k,
+             'queued_from': 'listener' if from_listener else 'user thread'}
+        codec = codec_for(pv)
+        state = {'got': [], 'done': False}
+
+        def handler(io, state=state, pv=pv, threshold=threshold,
+                    encrypted=encrypted, codec=codec):
+            scripts.read_handshake(io)
+            scripts.login_offline(io, pv, threshold=threshold, codec=codec,
+                                  encrypted=encrypted)
+            while True:
+                fr = io.recv_frame(10.0)
+                if fr is None:
+                    break
+                try:
+                    name, vals = codec.decode('play', fr[0], fr[1])
+                except EOFError:
+                    raise scripts.ProtocolViolation(
+                        'undecodable serverbound frame id=%#x payload=%r'
+                        % (fr[0], bytes(fr[1][:40])))
+                state['got'].append(vals.get('message') if name == 'sb_chat'
+                                    else '<%s>' % name)
+            state['done'] = True
+        server = mcserver.Server(handler)
+        rec = pc.Recorder()
+        conn = pc.make_connection(server.port, rec, allowed_versions={pv})
+        fired = []
+
+        def chat(text):
+            p = serverbound.play.ChatPacket()
+            p.message = text
+            return p
+
+        def on_out(packet, conn=conn, fired=fired, mode=mode, k=k,
+                   msgs=msgs):
+            if getattr(packet, 'message', None) != msgs[k] or fired:
+                return
+            fired.append(1)
+            if mode == 'disconnect-late':
+                conn.disconnect()
+            elif mode == 'disconnect-immediate-late':
+                conn.disconnect(immediate=True)
+            elif mode.startswith('forced'):
+                conn.write_packet(chat(extra), force=True)
+            elif mode.startswith('queued'):
+                conn.write_packet(chat(extra))
+        if mode != 'none':
+            conn.register_packet_listener(
+                on_out, serverbound.play.ChatPacket, outgoing=True,
+                early=mode.endswith('early'))
+
+        def queue_all(_p=None):
+            for m in msgs:
+                conn.write_packet(chat(m))
+        if from_listener:
+            conn.register_packet_listener(queue_all,
+                                          clientbound.login.LoginSuccessPacket)
+        try:
+            conn.connect()
+            if not from_listener:
+                pc.wait_for(lambda: any(
+                    type(p).__name__ == 'LoginSuccessPacket'
+                    for p in rec.packets), 10.0)
+                queue_all()
+            if mode == 'disconnect-late':
+                expect = list(msgs)
+            elif mode == 'disconnect-immediate-late':
+                expect = msgs[:k + 1]
+            elif mode == 'forced-late':
+                expect = msgs[:k + 1] + [extra] + msgs[k + 1:]
+            elif mode == 'forced-early':
+                expect = msgs[:k] + [extra] + msgs[k:]
+            elif mode.startswith('queued'):
+                expect = msgs + [extra]
+            else:
+                expect = list(msgs)
+            if mode.startswith('disconnect'):
+                pc.wait_for(lambda: state['done'], 10.0)
+            else:
+                pc.wait_for(lambda: len(state['got']) >= len(expect)
+                            or state['done'], 10.0)
+                import time
+                time.sleep(0.02)      # a duplicate would follow immediately
+                pc.safe_disconnect(conn)
+            pc.wait_idle(conn, 10.0)
+            server.join(10.0)
+        finally:
+            server.stop()
+        run.case(('live', ci))
+        run.count('live_sessions')
+        run.seen('live_modes', mode)
+        errs = [e for e in server.errors if e[1] == 'script']
+        if errs:
+            run.inconclusive_because('live: server script error %r'
+                                     % (errs[:1],))
+            continue
+        if server.errors:
+            run.violation('live/unparseable', 'the server could not parse '
+                          'what the client wrote', dict(
+                              w, error=repr(server.errors[:1])))
+            continue
+        if not state['done']:
+            run.inconclusive_because('live: the session did not end')
+            continue
+        got = state['got']
+        if got != expect:
+            first = next((j for j, (a, b) in enumerate(zip(got, expect))
+                          if a != b), min(len(got), len(expect)))
+            dup = len(set(got)) != len(got)
+            run.violation('live/%s/%s' % (
+                'duplicated' if dup else 'sequence', mode),
+                'packets received by the server differ from those the client '
+                'wrote (lost/duplicated/reordered)', dict(
+                    w, n_got=len(got), n_expected=len(expect),
+                    first_difference=first,
+                    got=[g[:12] for g in got[first:first + 3]],
+                    expected=[g[:12] for g in expect[first:first + 3]],
+                    client_errors=repr(rec.exceptions[:1])))
+        else:
+            run.count('live_packets_matched', len(got))
+    run.require('live_sessions', 1)
